@@ -48,6 +48,14 @@ check("C17", "TLA+ copy model on the SectionAlgo state graph (CopyKeepsNames inv
       "component-wise equality (names, session and original mnemonics, fields with value types, arrays, dtypes, index unit, "
       "all other attributes, byte-identical write()) and independence under four kinds of mutation of the copy.", TRUSTED,
       "DESIGN.md 4 C17")
+check("C20", "TLA+ handle protocol (Handles/HandlesAlgo) model-checked by TLC with a fault at every step; real calls run under "
+      "open()/io.open proxies with an OSError injected at every k-th low-level operation; event traces validated by TLC "
+      "against Trace_Handles",
+      "Model checking + fault enumeration bound by trace validation: the call structure of read/write/to_csv (with-blocks, "
+      "try/finally) is model-checked for NoLeak and CallerKept under a fault at every open and operation (the variant "
+      "without try/finally is shown to violate NoLeak); every real call kind x input x fault position is executed and its "
+      "open/io/fault/close/end events must satisfy NoLeak, CallerKept and ObjectHoldsNoHandle at the end of the call.",
+      TRUSTED, "DESIGN.md 4 C20")
 
 
 def main():
